@@ -108,3 +108,13 @@ Definition ok_pt (kinds : list nat) (o : ptobs) : bool :=
   let '(per, lg) := pt_expect kinds 1 in
   natpairs_eqb per (pt_per o) && nats_eqb lg (pt_log o) && Nat.eqb (pt_escaped o) 0.
 Definition check_pt (c : list nat * ptobs) : bool * bool * nat := (true, ok_pt (fst c) (snd c), 0).
+
+(* subopt.go (C09): the six orders of WithStore / WithSubscriptionStore / another option, with an event store that could
+   or could not keep offsets itself; n events are published, replayed through SubscribeWithReplay, one more is handled
+   live.  Whatever the order: no error, n+1 deliveries, the offset of the last event is in the dedicated subscription
+   store, nothing is in the event store's own offset table, the bus is persistent and holds n+1 records. *)
+Record soobs := { sb_ok : bool; sb_got : nat; sb_in_subs : bool; sb_events_clean : bool; sb_persistent : bool; sb_records : nat }.
+Definition ok_subopt (i : nat * bool * nat) (o : soobs) : bool :=
+  let '(_, _, n) := i in
+  sb_ok o && Nat.eqb (sb_got o) (S n) && sb_in_subs o && sb_events_clean o && sb_persistent o && Nat.eqb (sb_records o) (S n).
+Definition check_subopt (c : (nat * bool * nat) * soobs) : bool * bool * nat := (true, ok_subopt (fst c) (snd c), 0).
